@@ -30,8 +30,8 @@ DISC = {
 BOUNDS = {
     "quick":    {"lazy": (3, 4, 2, 1500), "eager": (3, 4, 2, 900), "stream": (4, 4, 1, 1200), "block": (4, 5, 1, 400),
                  "whole": (4, 4, 1, 500), "aead": (3, 3, 2, 900)},
-    "thorough": {"lazy": (5, 4, 2, 60000), "eager": (4, 4, 2, 60000), "stream": (6, 4, 1, 60000), "block": (5, 6, 2, 20000),
-                 "whole": (6, 4, 2, 20000), "aead": (4, 3, 2, 60000)},
+    "thorough": {"lazy": (5, 4, 2, 20000), "eager": (4, 4, 2, 12000), "stream": (6, 4, 1, 10000), "block": (5, 6, 2, 6000),
+                 "whole": (6, 4, 2, 8000), "aead": (4, 3, 2, 8000)},
 }
 
 
@@ -94,9 +94,10 @@ def run(ctx):
 
     # ---- TLC judges every executed script
     nval = 0
-    shards = vlib.shard(rows, 4 if len(rows) > 20000 else 1)
-    for sh in shards:
-        n, bad, r = vlib.validate_lines(ctx, "Trace_Belt", sh, timeout=3000)
+    # shards of <= 4000 lines, 6 TLC processes at a time (one large file is parsed and evaluated far slower than several small ones)
+    shards = vlib.shard(rows, max(1, (len(rows) + 3999) // 4000))
+    results = vlib.parallel([(lambda sh=sh: vlib.validate_lines(ctx, "Trace_Belt", sh, timeout=3000, workers=2)) for sh in shards], n=6)
+    for sh, (n, bad, r) in zip(shards, results):
         if n < len(sh):
             ctx.note_inconclusive("Trace_Belt evaluated %d of %d script lines (rc=%s)" % (n, len(sh), r.rc))
         nval += n
